@@ -22,7 +22,7 @@ Init == text \in StringsUpTo(Alphabet, L1) /\ ph = 0
 Extend(sfx) == /\ ph = 0 /\ ph' = 1
                /\ (Len(text) < L1 => sfx = <<>>)
                /\ text' = text \o sfx
-Next == \E sfx \in StringsUpTo(Alphabet, L2) : Extend(sfx)
+Next == ph = 0 /\ \E sfx \in StringsUpTo(Alphabet, L2) : Extend(sfx)
 
 Final == text # <<>> /\ text[Len(text)] = LF
 
